@@ -136,6 +136,11 @@ def _sym_table(ctx, p, n):
 def c09_custom(ctx, n):
     p, tc = pybc(), _tc()
     xs, ys, pts = _sym_table(ctx, p, n)
+    # the same table given as dicts, with the keys in either insertion order, is the same table
+    from py_ballisticcalc.drag_model import make_data_points
+    for order in (('Mach', 'CD'), ('CD', 'Mach')):
+        made = make_data_points([{order[0]: (xs[i] if order[0] == 'Mach' else ys[i]), order[1]: (xs[i] if order[1] == 'Mach' else ys[i])} for i in range(n)])
+        ctx.check('dict_table_read_by_key', all(ctx.same_term(made[i].Mach, xs[i]) and ctx.same_term(made[i].CD, ys[i]) for i in range(n)), info={'order': order})
     curve = SpyList(tc.calculate_curve(pts))
     ctx.check('curve_length', len(curve) == n)
     machs = tc._get_only_mach_data(pts)
